@@ -1282,3 +1282,146 @@ Theorem C14_partial_total_lemma : forall x, guard_C14_total x = true -> C14_tota
 Proof.
   intros x H. split; [apply C14_total_lemma; assumption | apply C14_partial_lemma; apply guard_total_guard; assumption].
 Qed.
+
+(* ====================================================================== round 2 *)
+(* ------------------------------------------------------------------ tree positions as identities: a statement that
+   RewriteAtQuery visits never has the identity of a resolved function argument *)
+Fixpoint id_free (h : path) (s : astmt) : bool :=
+  match s with
+  | AFunc _ _ _ _ _ _ _ => true
+  | AClass i _ _ _ b _ => negb (path_eqb i h) && forallb (id_free h) b
+  | AOther _ _ _ bl => forallb (fun b => forallb (id_free h) b) bl
+  | _ => negb (path_eqb (stmt_id s) h)
+  end.
+
+Definition nonprefix (p h : path) : Prop := forall r, h <> p ++ r.
+
+Lemma nonprefix_neq : forall p h, nonprefix p h -> path_eqb p h = false.
+Proof.
+  intros p h H. destruct (path_eqb p h) eqn:E; [|reflexivity]. apply path_eqb_eq in E. subst.
+  exfalso. apply (H []). rewrite app_nil_r. reflexivity.
+Qed.
+
+Lemma nonprefix_app : forall p l h, nonprefix p h -> nonprefix (p ++ l) h.
+Proof. intros p l h H r E. apply (H (l ++ r)). rewrite app_assoc. exact E. Qed.
+
+Lemma nonprefix_sibling : forall p j k r, j <> k -> nonprefix (p ++ [j]) (p ++ k :: r).
+Proof.
+  intros p j k r Hjk r' E. rewrite <- app_assoc in E. apply app_inv_head in E. simpl in E. inversion E. congruence.
+Qed.
+
+Definition idf_ok (c : stmt) : Prop :=
+  forall pname p1 h, nonprefix p1 h -> id_free h (annotate_stmt pname p1 c) = true.
+
+Lemma idf_body_of : forall b, Forall idf_ok b -> forall pname p j h, nonprefix p h ->
+    forallb (id_free h) (annotate_body pname p j b) = true.
+Proof.
+  intros b H. induction H as [|x l Hx Hl IH]; intros pname p j h Hn; simpl; [reflexivity|].
+  rewrite Hx by (apply nonprefix_app; assumption). apply IH. assumption.
+Qed.
+
+Lemma idf_go_block : forall (p : path) (bi : nat) h l, nonprefix p h -> Forall idf_ok l -> forall j,
+    forallb (id_free h)
+      ((fix go (j : nat) (b : list stmt) : list astmt :=
+          match b with [] => [] | x :: r' => annotate_stmt [] (p ++ [bi; j]) x :: go (S j) r' end) j l) = true.
+Proof.
+  intros p bi h l Hn H. induction H as [|x l Hx Hl IH]; intros j; simpl; [reflexivity|].
+  rewrite Hx by (apply nonprefix_app; assumption). apply IH.
+Qed.
+
+Lemma idf_gob : forall (p : path) h bl, nonprefix p h -> Forall (Forall idf_ok) bl -> forall bi,
+    forallb (fun b => forallb (id_free h) b)
+      ((fix gob (bi : nat) (bl : list (list stmt)) : list (list astmt) :=
+          match bl with
+          | [] => []
+          | b :: r =>
+            ((fix go (j : nat) (b : list stmt) : list astmt :=
+                match b with [] => [] | x :: r' => annotate_stmt [] (p ++ [bi; j]) x :: go (S j) r' end) 0 b)
+            :: gob (S bi) r
+          end) bi bl) = true.
+Proof.
+  intros p h bl Hn H. induction H as [|b l Hb Hl IH]; intros bi; simpl; [reflexivity|].
+  rewrite idf_go_block by assumption. apply IH.
+Qed.
+
+Lemma idf_all : forall c, idf_ok c.
+Proof.
+  induction c using stmt_ind2; intros pname p1 hh Hn.
+  - reflexivity.
+  - rewrite annotate_class. simpl. rewrite (nonprefix_neq _ _ Hn). simpl. apply idf_body_of; assumption.
+  - simpl. rewrite (nonprefix_neq _ _ Hn). reflexivity.
+  - simpl. rewrite (nonprefix_neq _ _ Hn). reflexivity.
+  - simpl. rewrite (nonprefix_neq _ _ Hn). reflexivity.
+  - simpl. rewrite (nonprefix_neq _ _ Hn). reflexivity.
+  - simpl. apply idf_gob; assumption.
+Qed.
+
+(* the children of a scope other than the k-th *)
+Lemma idf_body_other : forall b pname p j k r,
+    (k < j \/ j + List.length b <= k) ->
+    forallb (id_free (p ++ k :: r)) (annotate_body pname p j b) = true.
+Proof.
+  induction b as [|x l IH]; intros pname p j k r Hk; simpl; [reflexivity|].
+  rewrite (idf_all x) by (apply nonprefix_sibling; simpl in Hk; lia). apply IH. simpl in Hk. lia.
+Qed.
+
+Lemma resolve_stmt_prefix : forall q p0 c pos n, resolve_stmt q p0 c = Some (pos, n) -> exists r, pos = p0 ++ r.
+Proof.
+  intros q p0 c pos n H. rewrite <- (app_nil_r p0) in H. rewrite resolve_stmt_shift in H.
+  destruct (resolve_stmt q [] c) as [[p' n']|]; simpl in H; [|discriminate]. inversion H. eexists. reflexivity.
+Qed.
+
+Lemma app_cons_neq_self : forall (p : path) k r, p ++ k :: r <> p.
+Proof. intros p k r E. apply (f_equal (@List.length nat)) in E. rewrite app_length in E. simpl in E. lia. Qed.
+
+Definition arg_free_stmt (q : list str) : Prop :=
+  forall c pname p0 pos a, resolve_stmt q p0 c = Some (pos, PArg a) -> id_free pos (annotate_stmt pname p0 c) = true.
+
+Lemma arg_free_body : forall q', arg_free_stmt q' ->
+    forall seg b pname p pos a, resolve_body seg q' p 0 b = Some (pos, PArg a) ->
+                                forallb (id_free pos) (annotate_body pname p 0 b) = true.
+Proof.
+  intros q' IH seg b pname p pos a H. rewrite resolve_body_split in H.
+  destruct (split_member seg b) as [[[pre t] post]|] eqn:Es; [|discriminate].
+  destruct (split_member_some _ _ _ _ _ Es) as [Hb _]. subst b. simpl in H.
+  destruct (resolve_stmt_prefix _ _ _ _ _ H) as [r Hr]. rewrite <- app_assoc in Hr. simpl in Hr.
+  rewrite annotate_body_app, forallb_app. simpl annotate_body. simpl forallb.
+  rewrite (IH _ pname _ _ _ H). rewrite Hr.
+  rewrite idf_body_other by lia. rewrite idf_body_other by lia. reflexivity.
+Qed.
+
+Lemma arg_free_all : forall q, arg_free_stmt q.
+Proof.
+  induction q as [|seg q' IH]; intros c pname p0 pos a H; [discriminate|].
+  destruct c as [n ar b d r|n bs body d|t an v|ts v|e|e|t h bl]; try discriminate.
+  - reflexivity.
+  - rewrite resolve_stmt_class in H. rewrite annotate_class. simpl.
+    rewrite (arg_free_body q' IH _ _ _ _ _ _ H), andb_true_r.
+    rewrite resolve_body_split in H. destruct (split_member seg body) as [[[pre t] post]|]; [|discriminate].
+    destruct (resolve_stmt_prefix _ _ _ _ _ H) as [r Hr]. rewrite <- app_assoc in Hr. subst pos.
+    apply negb_true_iff. destruct (path_eqb p0 (p0 ++ [0 + List.length pre] ++ r)) eqn:E; [|reflexivity].
+    apply path_eqb_eq in E. symmetry in E. exfalso. exact (app_cons_neq_self _ _ _ E).
+Qed.
+
+Lemma arg_free_module : forall root q m pos a, resolve_at root q m = Some (pos, PArg a) ->
+    forallb (id_free pos) (annotate_at root m) = true.
+Proof.
+  intros root q m pos a H. destruct q as [|seg q']; [discriminate|]. unfold resolve_at in H. unfold annotate_at.
+  exact (arg_free_body q' (arg_free_all q') _ _ _ _ _ _ H).
+Qed.
+
+Lemma id_free_map_args : forall h f, (forall a, aa_id (f a) = aa_id a) ->
+                                     forall s, id_free h (map_args_stmt f s) = id_free h s.
+Proof.
+  intros h f Hf. induction s using astmt_ind2; try reflexivity.
+  - simpl. f_equal. apply forallb_map_Forall. assumption.
+  - simpl. apply forallb_map_Forall.
+    induction H as [|b0 bl0 Hb Hbl IHbl]; constructor; [|assumption]. apply forallb_map_Forall. assumption.
+  - simpl. rewrite Hf. reflexivity.
+Qed.
+
+Lemma id_free_apply_dlog : forall h log m, forallb (id_free h) (apply_dlog log m) = forallb (id_free h) m.
+Proof.
+  intros h log m. unfold apply_dlog. apply forallb_map_Forall. apply Forall_forall. intros s _.
+  apply id_free_map_args. intros a. apply attach_default_keeps.
+Qed.
